@@ -221,6 +221,11 @@ func (mdb *metadataDatabase) handleRow(row *metric.StorageRow) {
 func (mdb *metadataDatabase) gc(gcTimestamp int64) {
 	activeMetricIDs := make(map[uint64]struct{})
 
+	// NOTE: need lock before collecting active metric stores, a new metric store and its index are put
+	// under the lock, if not, the index of a metric store created after collecting is removed.
+	mdb.lock.Lock()
+	defer mdb.lock.Unlock()
+
 	// gc metric store
 	mdb.metricMetadatas.Range(func(key, value any) bool {
 		mStore := value.(mStoreINTF)
@@ -234,8 +239,6 @@ func (mdb *metadataDatabase) gc(gcTimestamp int64) {
 
 	active := len(activeMetricIDs)
 
-	mdb.lock.Lock()
-	defer mdb.lock.Unlock()
 	// gc metric store index
 	if active == 0 && !mdb.metricIndexStore.IsEmpty() {
 		mdb.metricIndexStore = imap.NewIntMap[uint64]()
